@@ -69,6 +69,22 @@ func H_C13_method(k int) {
 		return
 	}
 	answer := makeOfType(mt.Out(0), f)
+	if rt := mt.Out(0); rt.Kind() == reflect.Interface {
+		// the declared result is a union: the server may answer with ANY of its constructors (a symbolic choice,
+		// one path each), and each of them must come back to the caller
+		if impl := implementers(rt); len(impl) > 1 {
+			it := tl.VerifRegistry()[impl[verifrt.Choice(len(impl))]]
+			verifrt.Note("answer " + it.String())
+			answer = reflect.New(rt).Elem()
+			if it.Kind() == reflect.Ptr {
+				p := reflect.New(it.Elem())
+				f.fillStruct(p.Elem(), 0, 0)
+				answer.Set(p)
+			} else {
+				answer.Set(makeOfType(it, f))
+			}
+		}
+	}
 
 	var gotReq tl.Object
 	var gotHints []reflect.Type
